@@ -349,6 +349,8 @@ class ExcelModel:
                 continue
             formula_references = self.formula_references(context)
             if rng.get('anchor'):
+                if self.dsp.dmap.pred.get(n_id):  # Already linked.
+                    continue
                 ref = formula_references.get(f"{rng['c1']}{rng['r1']}")
                 if ref:
                     ref = Ranges.get_range(ref, context)['name']
